@@ -117,3 +117,26 @@ func validOnly(m *model.Model, ops []model.Op) []model.Op {
 }
 
 func limitAlive(m *model.Model, max int) bool { return m.NumAlive() < max }
+
+// withPad returns the configs plus copies with filler archetypes (table/archetype slices near capacity).
+func withPad(cf []drv.Config, pads ...int) []drv.Config {
+	out := append([]drv.Config{}, cf...)
+	for _, p := range pads {
+		c := cf[0]
+		c.Pad = p
+		out = append(out, c)
+	}
+	return out
+}
+
+// autoPad returns cf plus copies of its first config in which the explorer pads the world
+// so that the table slice (mode 1) / archetype slice (mode 2) is full before the last operation.
+func autoPad(cf []drv.Config, modes ...int) []drv.Config {
+	out := append([]drv.Config{}, cf...)
+	for _, m := range modes {
+		c := cf[0]
+		c.AutoPad = m
+		out = append(out, c)
+	}
+	return out
+}
